@@ -31,10 +31,59 @@ func runC18(c *Ctx) {
 	ruleWait(c)
 	ruleLoopExit(c)
 	ruleClosePair(c)
+	ruleLoopVar(c, "CLOSEPAIR", "service")
+	ruleSockOwned(c)
 	for _, m := range findMultiListeners(c, "CANCELPUMP") {
 		ruleCancelPump(c, m, "CANCELPUMP")
 	}
 	rulePanics(c)
+}
+
+// ruleSockOwned: once the outbound socket of a new association exists, every way out of the datagram code hands it to the
+// association table (whose goroutine closes it) or closes it: a rejected datagram must not leave a descriptor behind.
+func ruleSockOwned(c *Ctx) {
+	a := findUDP(c, "CLOSEPAIR")
+	if a == nil {
+		return
+	}
+	p := c.P
+	for i, ls := range a.listens {
+		call := ls
+		fromSock := func(v ssa.Value) bool {
+			return p.AnyFrom(v, deepF, func(x ssa.Value) bool { return eng.ResultOf(x, call, 0) })
+		}
+		isOwned := func(ins ssa.Instruction) bool {
+			cl, ok := ins.(*ssa.Call)
+			if !ok {
+				return false
+			}
+			for _, ad := range a.adds {
+				if cl == ad {
+					for _, ar := range cl.Call.Args {
+						if fromSock(ar) {
+							return true
+						}
+					}
+				}
+			}
+			if eng.MethodName(&cl.Call) == "Close" {
+				if r := eng.Receiver(&cl.Call); r != nil && fromSock(r) {
+					return true
+				}
+			}
+			return false
+		}
+		succ, _ := p.SuccessEdges(call.Parent(), []ssa.CallInstruction{call}, 1)
+		okO := len(succ) > 0
+		var bad ssa.Instruction
+		for _, e := range sortedEdges(succ) {
+			if ok, b := a.R.MustPassUp(edgePoint(e), isOwned); !ok {
+				okO, bad = false, b
+			}
+		}
+		c.CheckAt("CLOSEPAIR", fmt.Sprintf("outbound-socket#%d:handed-over-or-closed-on-every-path", i), call, okO, fmt.Sprintf("after the outbound socket was created a path leaves the datagram code (%s) without handing it to the association table or closing it: every datagram taking that path leaks a descriptor", p.IPos(bad)))
+	}
+	c.Floor("CLOSEPAIR", "outbound socket creations in the datagram code", len(a.listens), 1)
 }
 
 // ---- anchors ----
